@@ -363,7 +363,7 @@ func c09Check(ctx *vfCtx, c c09Case) {
 		// the same selection from a provider one of whose lookups fails (a database-backed provider):
 		// either the failure is reported or the selection is the complete one
 		for failAt := 1; failAt <= 6; failAt++ {
-			fp := &c09FailingProvider{failAt: failAt}
+			fp := &raFailingProvider{failAt: failAt}
 			eb3 := impl.NewEventBuilderFromProtoEvent(pe)
 			var ferr error
 			var built3 PDU
@@ -539,54 +539,6 @@ func c09PanelRecheck(ctx *vfCtx, version string) (string, string) {
 	}
 	return "", ""
 }
-
-// c09FailingProvider answers like inner, except that its failAt-th lookup fails.
-type c09FailingProvider struct {
-	inner  *AuthEvents
-	failAt int
-	n      int
-	failed bool
-}
-
-func (p *c09FailingProvider) tick() error {
-	p.n++
-	if p.n == p.failAt {
-		p.failed = true
-		return fmt.Errorf("c09: lookup %d failed", p.n)
-	}
-	return nil
-}
-func (p *c09FailingProvider) Create() (PDU, error) {
-	if err := p.tick(); err != nil {
-		return nil, err
-	}
-	return p.inner.Create()
-}
-func (p *c09FailingProvider) JoinRules() (PDU, error) {
-	if err := p.tick(); err != nil {
-		return nil, err
-	}
-	return p.inner.JoinRules()
-}
-func (p *c09FailingProvider) PowerLevels() (PDU, error) {
-	if err := p.tick(); err != nil {
-		return nil, err
-	}
-	return p.inner.PowerLevels()
-}
-func (p *c09FailingProvider) Member(k spec.SenderID) (PDU, error) {
-	if err := p.tick(); err != nil {
-		return nil, err
-	}
-	return p.inner.Member(k)
-}
-func (p *c09FailingProvider) ThirdPartyInvite(k string) (PDU, error) {
-	if err := p.tick(); err != nil {
-		return nil, err
-	}
-	return p.inner.ThirdPartyInvite(k)
-}
-func (p *c09FailingProvider) Valid() bool { return p.inner.Valid() }
 
 // c09Perturb judges a few events with odd contents (refused or undecodable for the rules) against
 // the state; the verdicts are ignored. It reports whether anything was evaluated.
